@@ -4,7 +4,7 @@
     region on the screen) and the parameter stack has the depth the parser state requires. *)
 From Coq Require Import ZArith NArith List Bool.
 Import ListNotations.
-From PV Require Import Screen.Model Screen.Facts Ansi.Names Gen.AnsiTable Ansi.Model Ansi.Proofs.
+From PV Require Import Screen.Model Screen.Facts Ansi.Names Gen.AnsiTable Ansi.Model Ansi.Proofs IO.Model Ansi.Bytes.
 
 (** the generated table is well typed: in every state, every transition it can take finds enough parameters *)
 Theorem C18_table_well_typed : table_well_typed = true.
@@ -32,6 +32,28 @@ Print Assumptions C18_no_residue.
 Theorem C18_chunk_independent : forall chunks a, feed_chunks a chunks = feed a (concat chunks).
 Proof. exact chunk_independent. Qed.
 Print Assumptions C18_chunk_independent.
+
+(** BYTES input (Ansi/Bytes.v): every write decodes its piece with the screen's incremental decoder - ANY Mealy machine
+    over bytes [C] - and parses the text; the decoder state and the terminal are carried from write to write.  Cuts
+    anywhere, inside an escape sequence or inside a multi-byte character, give the same decoder state, screen, cursor
+    and parser state as one write of the whole; and no bytes whatever make a write raise or spoil the shape. *)
+Theorem C18_bytes_chunk_independent : forall (C : codec) chunks st,
+  write_bytes_chunks C st chunks = write_bytes C st (concat chunks).
+Proof. exact bytes_chunk_independent. Qed.
+Print Assumptions C18_bytes_chunk_independent.
+
+Theorem C18_bytes_feed_total : forall (C : codec) chunks st, good (snd st) ->
+  exists st', write_bytes_chunks C st chunks = Some st' /\ good (snd st').
+Proof. exact write_bytes_chunks_total. Qed.
+Print Assumptions C18_bytes_feed_total.
+
+(** non-vacuity: ESC [ 2 ; 2 H then U+00E9 as the utf-8 bytes C3 A9, cut inside the escape sequence and inside the character *)
+Example C18_bytes_cut_inside_character :
+  match write_bytes_chunks utf8_codec (cinit utf8_codec, ansi_init 2 3) [[27; 91; 50]; [59; 50; 72; 195]; [169]]%N with
+  | Some (d, a) => (d, w (scrn a), pst_id (pstate a), stack a) = ((O, 0%N), [[32; 32; 32]; [32; 233; 32]]%N, 0, [])
+  | None => False
+  end.
+Proof. vm_compute. reflexivity. Qed.
 
 (** non-vacuity: ESC[0;0r followed by line feeds on a 3x4 terminal keeps the 3x4 shape and ends in INIT *)
 Example C18_region_then_scroll :
